@@ -1,15 +1,12 @@
 (* Proofs/ConvInt.v — IntConverter against xs:integer. *)
 From Coq Require Import NArith ZArith List Bool Lia.
-From XV Require Import Base.Str Base.Dec Base.PyInt Gen.ConvTables Model.ConvInt Spec.XsdPrims Proofs.ConvLemmas.
+From XV Require Import Base.Str Base.Dec Base.PyInt Gen.ConvTables Model.ConvInt Model.ConvGuards Spec.XsdPrims Proofs.ConvLemmas.
 Import ListNotations.
 Open Scope N_scope.
 
 Lemma max_digits_eq : int_max_str_digits = py_max_str_digits.
 Proof. reflexivity. Qed.
 
-(* the digit-count guard: the interpreter refuses to convert more digits *)
-Definition int_sp_in_limit (i : integer_sp) : bool :=
-  N.of_nat (length (i_digits i)) <=? int_max_str_digits.
 
 Lemma sign_digit_not_space sg ds :
   all_digits ds = true -> ds <> [] -> py_int_space (hd 0 (lex_sign sg ++ ds)) = false.
